@@ -54,6 +54,24 @@ theorem routed_to_named (R : Rules) (d : Dir) (hd : d.Ok) (r t a m : String) (p 
     have hg := getServicePID_none d hd n hk
     constructor <;> simp [request, notify, hr, hpid, hg]
 
+/-- **a nested (re-entrant) Route is transparent**: a route function that, before
+answering from key `k` of its own parameter, routes for another type `tB` with a
+DIFFERENT key map, yields exactly what the plain key function yields on the OUTER
+parameter — whatever the inner type, its rule and the inner map are. -/
+theorem nested_route_is_transparent (R : Rules) (d : Dir) (t k tB : String) (inner : KVs) (fp : FParam)
+    (hl : R.lookup t = some (.nest k tB inner)) :
+    doRoute R d t fp = (applyKey k fp).getD "" := by
+  simp [doRoute, hl, applyBeh]
+
+/-- …so such a rule names the instance under the OUTER parameter's key and the request goes there. -/
+theorem nested_routed_by_outer_key (R : Rules) (d : Dir) (hd : d.Ok) (r t a m k tB : String) (inner l : KVs)
+    (p : Param) (n : String) (cb : Bool) (hr : splitClientRoute r = (t, a, m))
+    (hl : R.lookup t = some (.nest k tB inner)) (hp : p.kvs? = some l) (hk : getKey l k = some (.str n))
+    (hne : n ≠ "") (hkn : Known d.ms n) :
+    ∃ pid, Named d.ms n pid ∧ request R d r p cb = ⟨[⟨pid, a ++ "." ++ m, true⟩], [], cb⟩ := by
+  obtain ⟨pid, hN, h1, _⟩ := (routed_to_named R d hd r t a m p n cb hr (.key hl rfl hp hk) hne).1 hkn
+  exact ⟨pid, hN, h1⟩
+
 /-- …and when instance names are unique in the view (the normal configuration), the
 target is THE instance of that name. -/
 theorem routed_to_the_instance (R : Rules) (d : Dir) (hd : d.Ok) (r t a m : String) (p : Param)
@@ -272,7 +290,7 @@ theorem d1_no_sentinels : NoSentinelNames d1.ms :=
   ⟨not_known_of_lookup_none d1 d1_ok _ (by decide), not_known_of_lookup_none d1 d1_ok _ (by decide),
    not_known_of_lookup_none d1 d1_ok _ (by decide)⟩
 theorem names0 : RuleNames R0 "chat" p0 "c2" :=
-  .key (l := [("chatid", .str "c2")]) (k := "chatid") rfl rfl (by decide)
+  .key (l := [("chatid", .str "c2")]) (b := .key "chatid") (k := "chatid") rfl rfl rfl (by decide)
 theorem known0 : Known d0.ms "c2" := ⟨_, known_of_lookup_some d0 d0_ok "c2" ("h2:2", "c2") (by decide)⟩
 /-- every name is unique in the one-node view -/
 theorem d1_unique (n : String) : UniqueName d1.ms n := by
@@ -293,6 +311,12 @@ example := lookup_is_view d0 d0_ok "c2"
 example := (routed_to_named R0 d0 d0_ok "chat.remote.say" "chat" "remote" "say" p0 "c2" true
   (by decide) names0 (by decide)).1 known0
 example : request R0 d0 "chat.remote.say" p0 true = ⟨[⟨("h2:2", "c2"), "remote" ++ "." ++ "say", true⟩], [], true⟩ := by decide
+-- a nesting rule: routes for `gate` with the inner map {chatid: c1}, then answers from the outer map {chatid: c2}
+example := nested_routed_by_outer_key ⟨[("chat", .nest "chatid" "gate" [("chatid", .str "c1")])], true⟩ d0 d0_ok
+  "chat.remote.say" "chat" "remote" "say" "chatid" "gate" [("chatid", .str "c1")] [("chatid", .str "c2")] p0 "c2" true
+  (by decide) rfl rfl (by decide) (by decide) known0
+example : request ⟨[("chat", .nest "chatid" "gate" [("chatid", .str "c1")])], true⟩ d0 "chat.remote.say" p0 true
+    = ⟨[⟨("h2:2", "c2"), "remote" ++ "." ++ "say", true⟩], [], true⟩ := by decide
 -- an explicit name, unique in the view
 example := routed_to_the_instance ⟨[], true⟩ d1 d1_ok "x.sys.kick" "x" "sys" "kick" (.str "g1") "g1" true ("h1:1", "g1")
   (by decide) (.explicit "g1") (by decide) (known_of_lookup_some d1 d1_ok "g1" _ (by decide)) (d1_unique "g1")
@@ -300,12 +324,12 @@ example := never_dropped_never_unannounced R0 d0 d0_ok "chat.remote.say" p0 true
 -- failing rules: unknown name, panicking function, non-string value, absent key, bad parameter, no working instance
 example := no_instance_no_send_one_callback R0 d0 d0_ok "chat.remote.say" "chat" "remote" "say" (.map [("chatid", .str "c9")]) true
   (by decide) ms0_no_sentinels
-  (.unknownName (n := "c9") (.key (l := [("chatid", .str "c9")]) (k := "chatid") rfl rfl (by decide))
+  (.unknownName (n := "c9") (.key (l := [("chatid", .str "c9")]) (b := .key "chatid") (k := "chatid") rfl rfl rfl (by decide))
     (not_known_of_lookup_none d0 d0_ok _ (by decide)))
 example : RuleFails R0 ms0 "scene" .nil := .funcPanics (fp := .nilIface) (b := .panic) rfl rfl rfl
 example : RuleFails R0 ms0 "chat" (.sess [("chatid", .other)]) :=
   .funcPanics (fp := .kvs [("chatid", .other)]) (b := .key "chatid") rfl rfl (by decide)
-example : RuleFails R0 ms0 "chat" (.sess [("k", .str "c1")]) := .keyAbsent (l := [("k", .str "c1")]) (k := "chatid") rfl rfl (by decide)
+example : RuleFails R0 ms0 "chat" (.sess [("k", .str "c1")]) := .keyAbsent (l := [("k", .str "c1")]) (b := .key "chatid") (k := "chatid") rfl rfl rfl (by decide)
 example : request R0 d0 "scene.remote.enter" .nil true = refused true := by decide
 example : request R0 d0 "chat.remote.say" .other true = refused true := by decide
 example := malformed_route_no_send R0 d0 d0_ok "bad" .nil true (by decide) (by intro s h; cases h) rfl ms0_no_sentinels
